@@ -130,20 +130,19 @@ Qed.
 Lemma run_from_quiet c s0 inputs script :
   QuietAll c s0 ->
   let '(o, s') := run_from c s0 inputs script in
-  (o = ReturnNone /\ s' = s0) \/
-  (Inv c inputs [] s' /\ good_end c s' o /\ (fin_run o = true -> Quiet c s')).
+  Inv c inputs [] s' /\ good_end c s' o /\ (fin_run o = true -> Quiet c s').
 Proof.
-  intros Hq. unfold run_from. destruct (negb (any_open c s0)); [left; split; reflexivity|].
+  intros Hq. unfold run_from.
   pose proof (first_enqueue_inv c inputs (fuel_of c) (S (extra c)) _ (reset_inv_quiet c s0 inputs Hq)) as H.
   destruct (first_enqueue c (fuel_of c) (reset c s0 inputs) (S (extra c))) as [s1|o]; cbn [okR' okR] in H.
   - pose proof (main_loop_inv c inputs (fuel_of c) script s1 H) as M.
     pose proof (main_loop_exit c inputs (fuel_of c) script s1 H) as X.
-    destruct (main_loop c (fuel_of c) s1 script) as [o s']. destruct M as [I G]. right.
+    destruct (main_loop c (fuel_of c) s1 script) as [o s']. destruct M as [I G].
     split; [exact I|]. split; [exact G|]. intros F. exact (exit_quiet c inputs s' I (X F)).
-  - subst o. right. split; [now apply reset_inv_quiet|]. split; [unfold good_end; auto|]. discriminate.
+  - subst o. split; [now apply reset_inv_quiet|]. split; [unfold good_end; auto|]. discriminate.
 Qed.
 
-Lemma fin_cases o : is_fin o = true -> o = ReturnNone \/ fin_run o = true.
+Lemma fin_cases o : is_fin o = true -> fin_run o = true.
 Proof. destruct o; cbn; auto; discriminate. Qed.
 
 (* every run of every history answers ITS inputs - nothing of an earlier run leaks into it *)
@@ -162,17 +161,14 @@ Proof.
   destruct (run_from c s0 in0 sc0) as [o s'].
   destruct k as [|k]; simpl in Hk, Ho.
   - inversion Hk; subst. inversion Ho; subst.
-    destruct H as [[E _]|[I [G _]]]; [discriminate|].
+    destruct H as [I [G _]].
     destruct G as [E|[E|[E|E]]]; try discriminate.
     symmetry in E. destruct (finish_return c inputs s' r I E) as [_ [-> C]].
     apply Permutation_map. apply Permutation_sym. rewrite (Permutation_count_occ Z.eq_dec).
     intros x. rewrite (C x), (inv_lost _ _ _ _ I Hr). simpl. lia.
   - destruct (is_fin o) eqn:F; [|destruct k; discriminate].
     apply (IH s' k bs inputs script r); auto.
-    destruct H as [[_ ->]|[I [G Q]]]; [intros i _; exact (Q0 i)|].
-    destruct (fin_cases o F) as [->|F']; [|exact (Q F')].
-    (* ReturnNone comes only from the early return *) exfalso.
-    destruct G as [E|[E|[E|E]]]; try discriminate. pose proof (finish_fin c s') as X. rewrite <- E in X. discriminate.
+    destruct H as [I [G Q]]. exact (Q (fin_cases o F)).
 Qed.
 
 Theorem rounds_from_fresh c pc rs k bs inputs script r :
